@@ -3,13 +3,16 @@
 package dnsforward
 
 import (
+	"bytes"
 	"crypto/tls"
 	"encoding/binary"
 	"encoding/hex"
+	"encoding/json"
 	"errors"
 	"math/rand/v2"
 	"net"
 	"net/http"
+	"net/http/httptest"
 	"net/netip"
 	"net/url"
 	"strings"
@@ -18,6 +21,7 @@ import (
 	"github.com/AdguardTeam/AdGuardHome/internal/vutil"
 	"github.com/AdguardTeam/dnsproxy/proxy"
 	"github.com/AdguardTeam/golibs/cache"
+	"github.com/AdguardTeam/golibs/netutil"
 	"github.com/AdguardTeam/urlfilter"
 	"github.com/AdguardTeam/urlfilter/filterlist"
 	"github.com/miekg/dns"
@@ -82,7 +86,10 @@ func c03RunConf(f []string) []string {
 	}
 
 	srv := &Server{
-		conf: ServerConfig{TLSConf: &TLSConfig{ServerName: srvName, StrictSNICheck: strict}},
+		conf: ServerConfig{
+			TLSConf:        &TLSConfig{ServerName: srvName, StrictSNICheck: strict},
+			ConfigModified: func() {},
+		},
 		clientIDCache: cache.New(cache.Config{
 			EnableLRU: true,
 			MaxCount:  defaultClientIDCacheCount,
@@ -92,6 +99,58 @@ func c03RunConf(f []string) []string {
 	c03Cur = &c03State{srv: srv}
 
 	return []string{"ok"}
+}
+
+// c03RunSet posts the lists to the real /control/access/set handler of the
+// live server.
+func c03RunSet(f []string) []string {
+	st := c03Cur
+	if st == nil {
+		return []string{"noconf"}
+	}
+	allowed, i := c03TakeList(f, 3, 5)
+	blocked, i := c03TakeList(f, i, 5)
+	hosts, _ := c03TakeList(f, i, 1)
+	body, err := json.Marshal(accessListJSON{
+		AllowedClients: allowed, DisallowedClients: blocked, BlockedHosts: hosts,
+	})
+	if err != nil {
+		panic(err)
+	}
+	w := httptest.NewRecorder()
+	r := httptest.NewRequest(http.MethodPost, "/control/access/set", bytes.NewReader(body))
+	st.srv.handleAccessSet(w, r)
+	msg := w.Body.String()
+	idx := func() string {
+		if k := strings.Index(msg, "at index "); k >= 0 {
+			rest := msg[k+len("at index "):]
+			if c := strings.IndexByte(rest, ':'); c >= 0 {
+				return rest[:c]
+			}
+		}
+
+		return "?"
+	}
+	switch {
+	case w.Code == http.StatusOK:
+		return []string{"ok"}
+	case w.Code != http.StatusBadRequest:
+		return []string{"status" + vutil.Itoa(w.Code)}
+	case strings.Contains(msg, "validating allowed clients"):
+		return []string{"dupA"}
+	case strings.Contains(msg, "validating disallowed clients"):
+		return []string{"dupB"}
+	case strings.Contains(msg, "validating blocked hosts"):
+		return []string{"dupH"}
+	case strings.Contains(msg, "intersect"):
+		return []string{"both"}
+	case strings.Contains(msg, "adding allowed:"):
+		return []string{"errA", idx()}
+	case strings.Contains(msg, "adding blocked:"):
+		return []string{"errB", idx()}
+	default:
+		return []string{"other:" + vutil.Hex(msg)}
+	}
 }
 
 func c03ParseIP(kind, addrHex, zoneHex string) netip.Addr {
@@ -222,6 +281,8 @@ func c03Run(f []string) []string {
 		return c03RunConf(f)
 	case "C03.q":
 		return c03RunQ(f)
+	case "C03.set":
+		return c03RunSet(f)
 	default:
 		panic("unknown op " + f[0])
 	}
@@ -421,162 +482,244 @@ func c03Gen(r *rand.Rand, emit vutil.Emit) {
 			srvName = ""
 		}
 		strict := r.IntN(2) == 0
-		badA, badB := r.IntN(25) == 0, r.IntN(25) == 0
-		var allowed, blocked []string
-		if r.IntN(2) == 0 || badA {
-			allowed = c03GenList(r, badA)
+		// A block is a configuration followed by requests, then possibly one or
+		// two POST /control/access/set with further requests against whatever
+		// lists are live afterwards (a rejected set must change nothing).
+		nPhases := 1
+		if r.IntN(2) == 0 {
+			nPhases += 1 + r.IntN(2)
 		}
-		blocked = c03GenList(r, badB)
-		if r.IntN(6) == 0 {
-			// the same entries on both lists: the disallowed one must be ignored
-			blocked = append(blocked, allowed...)
-		}
-		var hosts []string
-		for k := r.IntN(4); k > 0; k-- {
-			hosts = append(hosts, vutil.Pick(r, c03HostRules))
-		}
-		oracle := c03NewOracle(hosts)
-
-		f := []string{"C03.conf", vutil.Hex(srvName), vutil.B(strict), vutil.Itoa(len(allowed))}
-		for _, e := range allowed {
-			f = append(f, c03EntryFields(e)...)
-		}
-		f = append(f, vutil.Itoa(len(blocked)))
-		for _, e := range blocked {
-			f = append(f, c03EntryFields(e)...)
-		}
-		f = append(f, vutil.Itoa(len(hosts)))
-		for _, h := range hosts {
-			f = append(f, vutil.Hex(h))
-		}
-		emit(f...)
-		lines++
-
-		// ---- requests against it: addresses and ids drawn mostly from the lists
-		var listAddrs []netip.Addr
-		var listPfx []netip.Prefix
-		var listIDs []string
-		for _, e := range append(append([]string{}, allowed...), blocked...) {
-			if ip, err := netip.ParseAddr(e); err == nil {
-				listAddrs = append(listAddrs, ip)
-			} else if p, perr := netip.ParsePrefix(e); perr == nil {
-				listPfx = append(listPfx, p)
-			} else {
-				listIDs = append(listIDs, e)
+		live := false
+		var curAllowed, curBlocked []string
+		var oracle c03Oracle
+		for phase := 0; phase < nPhases; phase++ {
+			badA, badB := r.IntN(25) == 0, r.IntN(25) == 0
+			var allowed, blocked []string
+			if r.IntN(2) == 0 || badA {
+				allowed = c03GenList(r, badA)
 			}
-		}
-		nq := c03QPerBlock
-		if badA || badB {
-			nq = 2
-		}
-		for q := 0; q < nq; q++ {
-			var ip netip.Addr
-			switch k := r.IntN(20); {
-			case k == 0:
-				// zero Addr
-			case k < 5 && len(listAddrs) > 0:
-				ip = vutil.Pick(r, listAddrs)
-				switch r.IntN(6) {
-				case 0:
-					ip = ip.WithZone("eth0")
-				case 1:
-					ip = ip.WithZone("")
-				case 2:
-					if ip.Is4() {
+			blocked = c03GenList(r, badB)
+			if r.IntN(6) == 0 {
+				// the same entries on both lists: the disallowed one must be ignored
+				// (by the configuration file path; the API rejects the intersection)
+				blocked = append(blocked, allowed...)
+			}
+			var hosts []string
+			for k := r.IntN(4); k > 0; k-- {
+				hosts = append(hosts, vutil.Pick(r, c03HostRules))
+			}
+			if phase > 0 && r.IntN(3) > 0 {
+				allowed, blocked, hosts = c03Dedup(allowed, nil), c03Dedup(blocked, allowed), c03Dedup(hosts, nil)
+			}
+
+			op := "C03.conf"
+			accepted := c03EntriesValid(allowed) && c03EntriesValid(blocked)
+			if phase > 0 {
+				op = "C03.set"
+				accepted = accepted && live && !c03HasDup(allowed, nil) && !c03HasDup(blocked, allowed) &&
+					!c03HasDup(hosts, nil)
+			}
+			f := []string{op, vutil.Hex(srvName), vutil.B(strict), vutil.Itoa(len(allowed))}
+			for _, e := range allowed {
+				f = append(f, c03EntryFields(e)...)
+			}
+			f = append(f, vutil.Itoa(len(blocked)))
+			for _, e := range blocked {
+				f = append(f, c03EntryFields(e)...)
+			}
+			f = append(f, vutil.Itoa(len(hosts)))
+			for _, h := range hosts {
+				f = append(f, vutil.Hex(h))
+			}
+			cand := c03NewOracle(hosts)
+			emit(f...)
+			lines++
+			if accepted {
+				// (a prediction that only steers which lists the requests aim at and
+				// which engine answers the oracle bit; a wrong one shows as a
+				// disagreement on the set line itself)
+				live, curAllowed, curBlocked, oracle = true, allowed, blocked, cand
+			}
+			if !live {
+				oracle = c03NewOracle(nil)
+			}
+
+			// ---- requests against it: addresses and ids drawn mostly from the lists
+			var listAddrs []netip.Addr
+			var listPfx []netip.Prefix
+			var listIDs []string
+			for _, e := range append(append(append([]string{}, curAllowed...), curBlocked...), allowed...) {
+				if ip, err := netip.ParseAddr(e); err == nil {
+					listAddrs = append(listAddrs, ip)
+				} else if p, perr := netip.ParsePrefix(e); perr == nil {
+					listPfx = append(listPfx, p)
+				} else {
+					listIDs = append(listIDs, e)
+				}
+			}
+			nq := c03QPerBlock
+			if !live {
+				nq = 2
+			} else if phase > 0 {
+				nq = c03QPerBlock / 2
+			}
+			for q := 0; q < nq; q++ {
+				var ip netip.Addr
+				switch k := r.IntN(20); {
+				case k == 0:
+					// zero Addr
+				case k < 5 && len(listAddrs) > 0:
+					ip = vutil.Pick(r, listAddrs)
+					switch r.IntN(6) {
+					case 0:
+						ip = ip.WithZone("eth0")
+					case 1:
+						ip = ip.WithZone("")
+					case 2:
+						if ip.Is4() {
+							ip = netip.AddrFrom16(ip.As16())
+						} else if ip.Is4In6() {
+							ip = ip.Unmap()
+						}
+					}
+				case k < 13 && len(listPfx) > 0:
+					// inside / just outside a listed prefix
+					p := vutil.Pick(r, listPfx)
+					ip = p.Addr()
+					w := ip.BitLen()
+					switch r.IntN(5) {
+					case 0:
+						ip = c03FlipAt(ip, p.Bits()-1) // last network bit: outside
+					case 1:
+						ip = c03FlipAt(ip, p.Bits()) // first host bit: inside
+					case 2:
+						ip = c03FlipAt(ip, w-1)
+					case 3:
+						ip = c03FlipAt(ip, r.IntN(w))
+					}
+					if ip.Is6() && r.IntN(4) == 0 {
+						ip = ip.WithZone("eth0")
+					}
+					if ip.Is4() && r.IntN(10) == 0 {
 						ip = netip.AddrFrom16(ip.As16())
-					} else if ip.Is4In6() {
-						ip = ip.Unmap()
+					}
+				default:
+					ip = c03RandAddr(r)
+				}
+
+				id := ""
+				switch k := r.IntN(10); {
+				case k < 4 && len(listIDs) > 0:
+					id = vutil.Pick(r, listIDs)
+				case k < 6:
+					id = vutil.Pick(r, c03IDs)
+				}
+				proto := vutil.Pick(r, protos)
+				sni := srvName
+				if id != "" {
+					sni = id + "." + srvName
+				}
+				switch r.IntN(14) {
+				case 0:
+					sni = "a_b." + srvName // malformed label
+				case 1:
+					sni = "other.example.net" // mismatch (error when strict)
+				case 2:
+					sni = ""
+				}
+				hasPath, p := false, ""
+				if proto == "https" {
+					hasPath = r.IntN(30) > 0
+					switch r.IntN(6) {
+					case 0:
+						p = "/dns-query"
+					case 1:
+						p = "/dns-query/" + vutil.Pick(r, c03IDs)
+					case 2:
+						p = "/dns-query/" + id
+					case 3:
+						p = "/dns-query/a_b"
+					case 4:
+						p = "/other"
+					default:
+						p = "/dns-query/" + id
+						sni = srvName
 					}
 				}
-			case k < 13 && len(listPfx) > 0:
-				// inside / just outside a listed prefix
-				p := vutil.Pick(r, listPfx)
-				ip = p.Addr()
-				w := ip.BitLen()
-				switch r.IntN(5) {
+				connOK := r.IntN(25) > 0
+
+				qname := vutil.Pick(r, c03QNames)
+				qtype := vutil.Pick(r, c03QTypes)
+				nQuestions := 1
+				switch r.IntN(12) {
 				case 0:
-					ip = c03FlipAt(ip, p.Bits()-1) // last network bit: outside
+					nQuestions = 0
 				case 1:
-					ip = c03FlipAt(ip, p.Bits()) // first host bit: inside
-				case 2:
-					ip = c03FlipAt(ip, w-1)
-				case 3:
-					ip = c03FlipAt(ip, r.IntN(w))
+					nQuestions = 2
 				}
-				if ip.Is6() && r.IntN(4) == 0 {
-					ip = ip.WithZone("eth0")
-				}
-				if ip.Is4() && r.IntN(10) == 0 {
-					ip = netip.AddrFrom16(ip.As16())
-				}
-			default:
-				ip = c03RandAddr(r)
-			}
 
-			id := ""
-			switch k := r.IntN(10); {
-			case k < 4 && len(listIDs) > 0:
-				id = vutil.Pick(r, listIDs)
-			case k < 6:
-				id = vutil.Pick(r, c03IDs)
-			}
-			proto := vutil.Pick(r, protos)
-			sni := srvName
-			if id != "" {
-				sni = id + "." + srvName
-			}
-			switch r.IntN(14) {
-			case 0:
-				sni = "a_b." + srvName // malformed label
-			case 1:
-				sni = "other.example.net" // mismatch (error when strict)
-			case 2:
-				sni = ""
-			}
-			hasPath, p := false, ""
-			if proto == "https" {
-				hasPath = r.IntN(30) > 0
-				switch r.IntN(6) {
-				case 0:
-					p = "/dns-query"
-				case 1:
-					p = "/dns-query/" + vutil.Pick(r, c03IDs)
-				case 2:
-					p = "/dns-query/" + id
-				case 3:
-					p = "/dns-query/a_b"
-				case 4:
-					p = "/other"
-				default:
-					p = "/dns-query/" + id
-					sni = srvName
+				kind, addrHex, zone := "0", "-", "-"
+				if ip.IsValid() {
+					kind = "6"
+					if ip.Is4() {
+						kind = "4"
+					}
+					addrHex, zone = hex.EncodeToString(ip.AsSlice()), vutil.Hex(ip.Zone())
 				}
+				emit("C03.q", proto, kind, addrHex, zone, vutil.B(hasPath), vutil.Hex(p), vutil.Hex(sni), vutil.B(connOK),
+					vutil.Itoa(nQuestions), vutil.B(oracle.blocked(qname, qtype)), vutil.Hex(qname), vutil.Itoa(int(qtype)))
+				lines++
 			}
-			connOK := r.IntN(25) > 0
-
-			qname := vutil.Pick(r, c03QNames)
-			qtype := vutil.Pick(r, c03QTypes)
-			nQuestions := 1
-			switch r.IntN(12) {
-			case 0:
-				nQuestions = 0
-			case 1:
-				nQuestions = 2
-			}
-
-			kind, addrHex, zone := "0", "-", "-"
-			if ip.IsValid() {
-				kind = "6"
-				if ip.Is4() {
-					kind = "4"
-				}
-				addrHex, zone = hex.EncodeToString(ip.AsSlice()), vutil.Hex(ip.Zone())
-			}
-			emit("C03.q", proto, kind, addrHex, zone, vutil.B(hasPath), vutil.Hex(p), vutil.Hex(sni), vutil.B(connOK),
-				vutil.Itoa(nQuestions), vutil.B(oracle.blocked(qname, qtype)), vutil.Hex(qname), vutil.Itoa(int(qtype)))
-			lines++
 		}
 	}
+}
+
+// c03EntriesValid reports whether every entry is an address, a CIDR or a
+// hostname label (asked of netip and golibs, not of the code under test).
+func c03EntriesValid(l []string) bool {
+	for _, e := range l {
+		if _, err := netip.ParseAddr(e); err == nil {
+			continue
+		} else if _, err = netip.ParsePrefix(e); err == nil {
+			continue
+		} else if netutil.ValidateHostnameLabel(e) != nil {
+			return false
+		}
+	}
+
+	return true
+}
+
+// c03HasDup reports whether l repeats a string or shares one with other.
+func c03HasDup(l, other []string) bool {
+	seen := map[string]bool{}
+	for _, o := range other {
+		seen[o] = true
+	}
+	for _, x := range l {
+		if seen[x] {
+			return true
+		}
+		seen[x] = true
+	}
+
+	return false
+}
+
+// c03Dedup removes the repeats of l and what it shares with other.
+func c03Dedup(l, other []string) (out []string) {
+	seen := map[string]bool{}
+	for _, o := range other {
+		seen[o] = true
+	}
+	for _, x := range l {
+		if !seen[x] {
+			out = append(out, x)
+		}
+		seen[x] = true
+	}
+
+	return out
 }
 
 func TestVerifC03(t *testing.T) { vutil.Main(t, c03Gen, c03Run) }
